@@ -301,6 +301,139 @@ main (int argc, char **argv)
 	  std::cout << "." << std::endl;
 	  continue;
 	}
+      if (cmd == "H")
+	{
+	  // histories over one compiled query: H <seed> <hexquery> <hexP> [<hex other query>]
+	  // P yields the input stacks (at most three are used).  Every pull of every execution is
+	  // compared with a fresh parse-and-run on that input.
+	  unsigned seed;
+	  std::string hq, hp, hother;
+	  is >> seed >> hq >> hp >> hother;
+	  std::string q = unhex (hq), p = unhex (hp), other = unhex (hother);
+	  cerr_capture cap;
+	  try
+	    {
+	      compiled cp = compile (p, true);
+	      std::vector <stack::uptr> ins;
+	      if (! run (cp, std::make_unique <stack> (), &ins))
+		throw std::runtime_error ("input program failed");
+	      if (ins.size () > 3)
+		ins.resize (3);
+	      if (ins.empty ())
+		ins.push_back (std::make_unique <stack> ());
+	      auto fresh = [&] (stack const &in, std::string const &text)
+		{
+		  std::vector <std::string> ret;
+		  compiled c = compile (text, true);
+		  scon sc {c.l};
+		  scon_guard sg {sc, *c.o};
+		  c.origin->set_next (sc, std::make_unique <stack> (in));
+		  try
+		    {
+		      for (int n = 0; n < 300; ++n)
+			{
+			  auto stk = c.o->next (sc);
+			  if (stk == nullptr) { ret.push_back ("END"); break; }
+			  ret.push_back (show_stack (*stk));
+			}
+		    }
+		  catch (std::exception const &e)
+		    {
+		      ret.push_back (std::string ("E ") + e.what ());
+		    }
+		  return ret;
+		};
+	      std::vector <std::vector <std::string>> ref;
+	      std::vector <std::string> in_before;
+	      for (auto &in: ins)
+		{
+		  ref.push_back (fresh (*in, q));
+		  in_before.push_back (show_stack (*in));
+		}
+	      // the shared compiled query; optionally another query text is compiled before / after it
+	      std::unique_ptr <compiled> pre;
+	      if (! other.empty () && (seed & 1))
+		pre = std::make_unique <compiled> (compile (other, true));
+	      compiled c = compile (q, true);
+	      std::unique_ptr <compiled> post;
+	      if (! other.empty () && ! (seed & 1))
+		post = std::make_unique <compiled> (compile (other, true));
+	      // the state buffer and its guard live and die together (guard first)
+	      struct exec_t
+	      {
+		scon sc;
+		scon_guard sg;
+		exec_t (layout const &l, op &o) : sc {l}, sg {sc, o} {}
+	      };
+	      struct live_t
+	      {
+		std::unique_ptr <exec_t> ex;
+		size_t k, i;
+		bool dead;
+	      };
+	      std::vector <live_t> live;
+	      uint64_t rs = seed * 2654435761u + 12345;
+	      auto rnd = [&] () { rs = rs * 6364136223846793005ULL + 1442695040888963407ULL; return (unsigned) (rs >> 33); };
+	      long pulls = 0;
+	      std::string verdict;
+	      for (int step = 0; step < 60 && verdict.empty (); ++step)
+		{
+		  unsigned op = rnd () % 5;
+		  if ((op == 0 || live.empty ()) && live.size () < 3)
+		    {
+		      size_t k = rnd () % ins.size ();
+		      live_t l;
+		      l.ex = std::make_unique <exec_t> (c.l, *c.o);
+		      c.origin->set_next (l.ex->sc, std::make_unique <stack> (*ins[k]));
+		      l.k = k; l.i = 0; l.dead = false;
+		      live.push_back (std::move (l));
+		    }
+		  else if (op == 4 && ! live.empty ())
+		    live.erase (live.begin () + rnd () % live.size ());	// abandon a result set
+		  else if (! live.empty ())
+		    {
+		      live_t &l = live[rnd () % live.size ()];
+		      if (l.dead || l.i >= ref[l.k].size ())
+			continue;
+		      std::string got;
+		      try
+			{
+			  auto stk = c.o->next (l.ex->sc);
+			  got = stk == nullptr ? "END" : show_stack (*stk);
+			}
+		      catch (std::exception const &e)
+			{
+			  got = std::string ("E ") + e.what ();
+			}
+		      ++pulls;
+		      if (got != ref[l.k][l.i])
+			verdict = "MISMATCH input " + std::to_string (l.k) + " pull " + std::to_string (l.i)
+			  + " got " + got + " want " + ref[l.k][l.i];
+		      if (got == "END" || got[0] == 'E')
+			l.dead = true;
+		      ++l.i;
+		    }
+		}
+	      live.clear ();
+	      for (size_t k = 0; k < ins.size () && verdict.empty (); ++k)
+		if (show_stack (*ins[k]) != in_before[k])
+		  verdict = "INPUT-MODIFIED " + std::to_string (k);
+	      // the same text compiled again behaves the same
+	      for (size_t k = 0; k < ins.size () && verdict.empty (); ++k)
+		if (fresh (*ins[k], q) != ref[k])
+		  verdict = "RECOMPILE-DIFFERS input " + std::to_string (k);
+	      if (verdict.empty ())
+		std::cout << "H ok pulls=" << pulls << " inputs=" << ins.size () << "\n";
+	      else
+		std::cout << "H " << verdict << "\n";
+	    }
+	  catch (std::exception const &e)
+	    {
+	      std::cout << "E compile " << e.what () << "\n";
+	    }
+	  std::cout << "." << std::endl;
+	  continue;
+	}
       if (cmd == "X")
 	{
 	  std::string hp, hq;
